@@ -88,9 +88,20 @@ Arguments FNotFound {T}.
 Arguments FErr {T}.
 Arguments FNil {T}.
 
-(* decodeOneblockfileData: the first message of the file; a clean EOF right after the header
-   gives (nil, nil) in the Go code: the distinguished FNil *)
+(* decodeOneblockfileData: the first message of the file; a clean EOF right after the header is an
+   error ("one-block file holds no block": fix 6b75a41; the code as shipped returned (nil, nil), the
+   distinguished FNil, kept below as decode_one_block_file_unfixed) *)
 Definition decode_one_block_file {T} (dec : str -> option T) (data : str) : fres T :=
+  match read_header data with
+  | None => FErr
+  | Some (_, s1) =>
+      match bs_read_message dec s1 with
+      | (RItem x, _) => FBlock x
+      | (REOF, _) => FErr
+      | (RErr, _) => FErr
+      end
+  end.
+Definition decode_one_block_file_unfixed {T} (dec : str -> option T) (data : str) : fres T :=
   match read_header data with
   | None => FErr
   | Some (_, s1) =>
